@@ -878,6 +878,13 @@ hwloc__xml_import_object(hwloc_topology_t topology,
 	      state->global->msgprefix, hwloc_obj_type_string(obj->type), obj->os_index);
     goto error_with_object;
   }
+  if ((!obj->complete_cpuset || !obj->complete_nodeset) && !hwloc__obj_type_is_special(obj->type)) {
+    /* the export always writes the four sets together, and the core relies on the complete sets */
+    if (hwloc__xml_verbose())
+      fprintf(stderr, "%s: invalid normal or memory object %s P#%u without complete cpuset and nodeset\n",
+	      state->global->msgprefix, hwloc_obj_type_string(obj->type), obj->os_index);
+    goto error_with_object;
+  }
   if ((obj->cpuset || obj->nodeset) && hwloc__obj_type_is_special(obj->type)) {
     if (hwloc__xml_verbose())
       fprintf(stderr, "%s: invalid special object %s with cpuset or nodeset\n",
